@@ -16,7 +16,7 @@ m = {
   "guard": "verif",
   "enable": "bin/check builds the harness with `go test -c -tags verif` (one add-only file, lib/logic/preference-func/electreIII/verif_hooks.go, exposes the ELECTRE III credibility matrix read-only to the C05/C06 monitors); everything else is observed through decorators around the interfaces of main.go's registries and black-box observation of the service. The service binary used by C02/C10/C20 is built WITHOUT the tag.",
   "baseline_off_cmd": "for m in . ./httpClient ./lib; do (cd /repo/$m && GOFLAGS=-mod=mod go test -vet=off -count=1 -timeout 25m ./...) || exit 1; done",
-  "source_commits": ["24f0b85"],
+  "source_commits": ["2848265"],
   "add_only": True
  },
  "engines": [{"name": "rdm-harness", "path": "harness/", "serves_properties": sorted(CHECKS),
